@@ -494,6 +494,11 @@ func (f *Frame) enterLoop(l *Loop, cur *State, phiVals map[*ssa.Phi]Val) *State 
 		}
 		n := e.freshConst("it", "Int")
 		st.iters[r] = n
+		if mt, ok := r.X.Type().Underlying().(*types.Map); ok {
+			if _, ok := cur.visited[r]; ok {
+				st.visited[r] = e.freshConst("vis", "(Array "+e.sortOf(mt.Key())+" Bool)")
+			}
+		}
 		x := f.val(r.X)
 		if isString(r.X.Type()) {
 			e.assume("true", fmt.Sprintf("(and (<= 0 %s) (<= %s (slen %s)))", n, n, x.S))
